@@ -335,7 +335,7 @@ impl World {
         cov.ops += 1;
         let kem = sid.kem;
         cov.hit(&format!("decode.{:?}.{:?}.{}", if kind == Kind::Tag { format!("{:?}", sid.aead) } else { format!("{:?}", kem) }, kind, out_class_s(&r)));
-        cov.sig_event("Decode", &format!("{:?}{:?}{}{}", kem, kind, len_class(bytes.len()), out_class_s(&r)));
+        cov.sig_event("Decode", &format!("{:?}{:?}{}{}", kem, kind, if bytes.len() < 300 { bytes.len().to_string() } else { len_class(bytes.len()).to_string() }, out_class_s(&r)));
         if let Err(Fail::Panic(m)) = &r {
             return Err(self.viol("decode.no-panic", "a value or an HpkeError".into(), format!("panic: {} (input {} bytes: {})", m, bytes.len(), short_hex(bytes))));
         }
@@ -456,7 +456,7 @@ impl World {
         match ev {
             Ev::Keygen { k, kem, ikm } => self.ev_keygen(*k, *kem, ikm, cov),
             Ev::KeygenRng { k, kem, rng } => self.ev_keygen_rng(*k, *kem, rng, cov),
-            Ev::KeyRaw { k, kem, sk, pk } => self.ev_key_raw(*k, *kem, sk, pk),
+            Ev::KeyRaw { k, kem, sk, pk } => self.ev_key_raw(*k, *kem, sk, pk, cov),
             Ev::SetupS { c, cfg, kr, ks, ks_pub, rng, model_only } => self.ev_setup_s(*c, cfg, *kr, *ks, *ks_pub, rng, *model_only, cov),
             Ev::SetupR { c, cfg, kr, ks, enc, model_only } => self.ev_setup_r(*c, cfg, *kr, *ks, enc, *model_only, cov),
             Ev::Seal { c, pt, aad, inplace } => self.ev_seal(*c, pt, aad, *inplace, cov),
